@@ -1609,11 +1609,14 @@ func monC19(tr *Trace, br map[string]int) (out []Violation) {
 					src[decTok(it[k+1:])] = true
 				}
 			}
+			// the description is made at the end of block H-1 from the records created before the start of that block's round
+			last := c.post.H - 1
+			start := last - last%period
 			for _, u := range c.post.Utxrs {
-				if len(u.Rcpt) == 0 && u.Created+period < r.Id {
+				if len(u.Rcpt) == 0 && start > 0 && u.Created <= start-1 && len(c.res) > 0 && c.res[0] == "ok" {
 					br["c19:waiting-record-in-sources"]++
 					if !src[decTok(u.Nft)] {
-						out = append(out, viol("C19", "waiting-nft-not-presented", c.i, "record %d:%d waits for the owner of %s since block %d; the round %d publishes %v", u.Tenant, u.Id, decTok(u.Nft), u.Created, r.Id, r.Src))
+						out = append(out, viol("C19", "waiting-nft-not-presented", c.i, "record %d:%d waits for the owner of %s since block %d; the description published for round %d lists %v", u.Tenant, u.Id, decTok(u.Nft), u.Created, r.Id, r.Src))
 					}
 				}
 			}
